@@ -7,6 +7,7 @@
        C                                   a connection completes Hello
        K.<sid>                             the same, made by started process sid (no difference for the model)
        A.<c>.<serial>.<name>.<class>       message to <name>, auto-start allowed
+       B.<c>.<serial>.<name>.<class>       the same sent as a directed SIGNAL (the bus does not look at the type before it auto-starts)
        U.<c>.<serial>.<name>.<class>       same with NO_AUTO_START
        S.<c>.<serial>.<name>               StartServiceByName
        R.<c>.<serial>.<k>                  RequestName(w<k>, DO_NOT_QUEUE)
@@ -26,6 +27,13 @@
      followed by " | " and the sids still pending at the end
    shell <hex>                 -> ok <hex>,<hex>... | err | nomem
    desk <hex>                  -> ok N=<hex|~> E=<hex|~> U=<hex|~> | err | fuel      (~ = key absent, - = empty value)
+   cachem <flags> <op>*       the service-file cache (Activation/Cache.v); flags: one char per directory, '1' = strict naming
+                               op = L@<fs> (bus_activation_new / bus_activation_reload) | F.<namehex>@<fs> (activation_find_entry)
+                               fs = directories joined by "|"; directory = "!" (cannot be opened) | "-" (empty) | files in
+                               readdir order joined by ",", file = <namehex>:<mtime>:<contenthex>
+                               -> one token per op: <found entry|none|->/<table>   entry = name:exec:user:systemd:mtime:dir:file
+   cachespec <flags> <op>*     same input; per F op what Spec/ActivationSpecCache.v's spec_lookup says for the files as they are
+                               at that moment (first valid file in search order), per L op "-"
    helper <namehex> <perm 0|1> <dirs>   dirs: "." (none) or directories joined by "/", each "-" or files joined by ",", file = <namehex>:<contenthex>
                                -> exit <code> | exec <userhex> <argvhex,...> | fault *)
 open Model_activation
@@ -84,6 +92,7 @@ let parse_events (st : state) (tok : string) : event list =
   | ["C"] -> [EConnect]
   | ["K"; _] -> [EConnect]
   | ["A"; c; s; n; cl] -> [ESend (ni c, ni s, parse_name n, false, ni cl)]
+  | ["B"; c; s; n; cl] -> [ESend (ni c, ni s, parse_name n, false, ni cl)]
   | ["U"; c; s; n; cl] -> [ESend (ni c, ni s, parse_name n, true, ni cl)]
   | ["S"; c; s; n] -> [EStart (ni c, ni s, parse_name n)]
   | ["R"; c; s; k] -> [ERequest (ni c, ni s, ni k)]
@@ -114,7 +123,52 @@ let run_hist (ids : bool) (args : string list) : string =
         (match pending_sids !st with [] -> "-" | l -> String.concat "," (List.map (fun s -> string_of_int (int_of_n s)) l))
   | _ -> failwith "hist"
 
+let parse_fs (s : string) : fsys =
+  List.map (fun d ->
+    if d = "!" then None else if d = "-" then Some [] else
+    Some (List.map (fun f -> match String.split_on_char ':' f with
+      | [n; m; c] -> (unhex n, { fl_mtime = ni m; fl_content = unhex c })
+      | _ -> failwith "file") (String.split_on_char ',' d))) (String.split_on_char '|' s)
+
+let show_opt = function None -> "~" | Some b -> hex b
+let show_sentry (e : sentry) : string =
+  Printf.sprintf "%s:%s:%s:%s:%d:%d:%s" (hex e.se_name) (hex e.se_exec) (show_opt e.se_user) (show_opt e.se_systemd)
+    (int_of_n e.se_mtime) (int_of_n e.se_dir) (hex e.se_file)
+let show_table (c : cache) : string =
+  match List.sort compare (List.map show_sentry c.by_name) with [] -> "-" | l -> String.concat ";" l
+
+let run_cache (args : string list) : string =
+  match args with
+  | flags :: ops ->
+      let fl = List.init (String.length flags) (fun i -> flags.[i] = '1') in
+      let c = ref empty_cache in
+      let toks = List.map (fun op ->
+        match String.split_on_char '@' op with
+        | ["L"; fs] -> c := reload fl (parse_fs fs); "-/" ^ show_table !c
+        | [f; fs] when String.length f > 2 && f.[0] = 'F' ->
+            let (c', r) = find_entry fl (parse_fs fs) !c (unhex (String.sub f 2 (String.length f - 2))) in
+            c := c';
+            (match r with None -> "none" | Some e -> show_sentry e) ^ "/" ^ show_table !c
+        | _ -> failwith "cache op") ops in
+      if toks = [] then "-" else String.concat " " toks
+  | _ -> failwith "cachem"
+
+let run_cachespec (args : string list) : string =
+  match args with
+  | flags :: ops ->
+      let fl = List.init (String.length flags) (fun i -> flags.[i] = '1') in
+      let toks = List.map (fun op ->
+        match String.split_on_char '@' op with
+        | ["L"; _] -> "-"
+        | [f; fs] when String.length f > 2 && f.[0] = 'F' ->
+            (match spec_lookup fl (parse_fs fs) (unhex (String.sub f 2 (String.length f - 2))) with None -> "none" | Some e -> show_sentry e)
+        | _ -> failwith "cache op") ops in
+      if toks = [] then "-" else String.concat " " toks
+  | _ -> failwith "cachespec"
+
 let () =
+  reg "cachem" run_cache;
+  reg "cachespec" run_cachespec;
   reg "hist" (run_hist false);
   reg "histid" (run_hist true);
   reg "shell" (fun args -> match args with
